@@ -67,6 +67,24 @@ Theorem zero_sized_submodule_cluster_error : forall fx field self typ nodes, fd_
   transform_submodule fx field self typ nodes = Err K_INVALID_SUBMODULE.
 Proof. intros fx field self typ nodes H. unfold transform_submodule. rewrite H. reflexivity. Qed.
 
+(* two submodule fields of one name and shape, own or inherited (fix a6f4ffc): rejected, so that the build
+   never creates two nodes at one path *)
+Theorem duplicate_submodule_field_error : forall self m nodes links gates subs,
+  has_dup_binding (tc_args self) = false -> transform_gates (md_gates m) = Ok gates ->
+  transform_submodules true self (md_subs m) nodes = Ok subs ->
+  has_dup_field (subs ++ match md_inherit m with
+                         | Some p => match lookup p nodes with Some (arch, _) => n_subs arch | None => [] end
+                         | None => [] end) = true ->
+  (forall p, md_inherit m = Some p -> lookup p nodes <> None) ->
+  transform_module true self m nodes links = Err K_SYMBOL_ALREADY_DEFINED.
+Proof.
+  intros self m nodes links gates subs Hd Hg Hs Hdup Hp. unfold transform_module. rewrite Hd, Hg. cbn [bind]. rewrite Hs. cbn [bind].
+  destruct (md_inherit m) as [p|].
+  - destruct (lookup p nodes) as [[arch ga]|] eqn:El; [|exfalso; exact (Hp p eq_refl El)].
+    cbn [bind andb]. rewrite Hdup. reflexivity.
+  - cbn [bind andb]. rewrite app_nil_r in Hdup. rewrite Hdup. reflexivity.
+Qed.
+
 Definition nonzero (f : FieldDef) : Prop := kard_eqb (fd_kard f) (Cluster 0) = false.
 
 (* `x: G` where G still has generics *)
